@@ -282,7 +282,7 @@ func (g *gen) otherBranch(m *mstate) string {
 var profiles = map[string][8]int{
 	"C31": {40, 22, 12, 16, 5, 2, 1, 2},
 	"C32": {48, 24, 12, 6, 2, 3, 2, 3},
-	"C33": {44, 24, 14, 6, 3, 4, 2, 3},
+	"C33": {40, 24, 20, 6, 3, 4, 1, 2},
 	"C34": {40, 16, 8, 3, 1, 12, 10, 10},
 }
 
@@ -516,6 +516,9 @@ func (rn *runner) runProgram(g *gen, replay []string, steps int) {
 			return
 		}
 		if idump != parts[1] {
+			// model and dolt disagree: first let the property oracles judge dolt's own behaviour
+			// (on dolt's own state), then record the disagreement
+			ora.after(line, res, pre, parseDump(idump), kc, replay != nil)
 			e.Rep.Disagree(kc, idump, parts[1], "state after "+line)
 			return
 		}
